@@ -89,7 +89,8 @@ def gen_route(rng, L):
         r['post'] = rng.choice([0, 1, 5, 8])
         r['how'] = rng.choice(['slice', 'ctor-of-slice', 'copy', 'deepcopy-ish', 'cut', 'read', 'deepcopy', 'pickle', 'pickle-of-slice'])
     elif fam == 'iterable':
-        r['how'] = rng.choice(['list', 'tuple', 'gen', 'bitarray', 'strings', 'bitarray-little', 'bitarray=little', 'frozenbitarray'])
+        r['how'] = rng.choice(['list', 'tuple', 'gen', 'bitarray', 'strings', 'bitarray-little', 'bitarray=little', 'frozenbitarray',
+                                'truthy-list', 'truthy-iter', 'truthy-map'])
     elif fam == 'auto-bytes':
         r['how'] = rng.choice(['bytes', 'bytearray', 'memoryview', 'BytesIO'])
     elif fam == 'array':
@@ -272,6 +273,12 @@ def build(cls, bits, r, files):
             return cls(bitarray=bitarray.bitarray('1' + bits, endian='little'), offset=1), bits
         if how == 'frozenbitarray':
             return cls(bitarray.frozenbitarray(bits)), bits
+        if how in ('truthy-list', 'truthy-iter', 'truthy-map'):
+            # arbitrary objects, each standing for bool(item); as a list, or as an iterator that can be walked once only
+            items = util.truthy_items(bits)
+            if how == 'truthy-list':
+                return cls(items), bits
+            return cls(iter(items) if how == 'truthy-iter' else map(lambda x: x, items)), bits
         return cls(['x' if c == '1' else '' for c in bits]), bits
     if fam == 'auto-bytes':
         if L % 8:
